@@ -59,6 +59,14 @@ Theorem C20_notify_rate : forall (m : smap) (k v : bytes),
 Proof. exact notify_rate. Qed.
 Print Assumptions C20_notify_rate.
 
+(* a value that returns to one notified before is a change again: A, B, A emits at B and at the second A
+   (the entry of a key holds ONE value; there is no memory of older values) *)
+Theorem C20_notify_value_returns : forall (m : smap) (k v v' : bytes) (c mx : N),
+  alookup beq k m = Some (v, c) -> v <> v' ->
+  run_entries m [(k, v'); (k, v)] mx = [true; true].
+Proof. exact value_returns. Qed.
+Print Assumptions C20_notify_value_returns.
+
 (* other keys are not disturbed *)
 Theorem C20_notify_keys_independent : forall (m : smap) (k k' v : bytes) (mx : N),
   beq k' k = false -> alookup beq k' (fst (update_entry m k v mx)) = alookup beq k' m.
